@@ -134,7 +134,11 @@ def _read_shipped(stem):
         mb, _ = _modules()
         buf = io.StringIO()
         with contextlib.redirect_stdout(buf):
-            data = mb.read_bisc_file(os.path.join(_resources_dir(), stem))
+            try:
+                data = mb.read_bisc_file(os.path.join(_resources_dir(), stem))
+            except Exception as exc:  # pylint: disable=broad-except
+                data = {}
+                print(f"read_bisc_file raised {type(exc).__name__}: {exc}")
         _FILE_CACHE.clear()
         _FILE_CACHE[stem] = (data, buf.getvalue())
     return _FILE_CACHE[stem]
